@@ -72,7 +72,8 @@ func (dist *NormalIWishartDistribution) Clone() *NormalIWishartDistribution {
     Kappa: dist.Kappa.CloneScalar(),
     Mu   : dist.Mu   .CloneVector(),
     r1   : dist.r1   .CloneScalar(),
-    r2   : dist.r2   .CloneScalar() }
+    r2   : dist.r2   .CloneScalar(),
+    sigmap: dist.sigmap.CloneMatrix() }
 }
 
 /* -------------------------------------------------------------------------- */
